@@ -80,7 +80,11 @@ impl DelegateToDefaultImpl for Rc<Unimock> {
     }
 
     fn from_delegator(delegator: Self::Delegator) -> Self {
-        Rc::new(delegator.unimock.clone())
+        // The counterpart of `to_delegator`: a solely owned delegator gives its instance back.
+        match Rc::try_unwrap(delegator) {
+            Ok(delegator) => Rc::new(delegator.unimock),
+            Err(shared) => Rc::new(shared.unimock.clone()),
+        }
     }
 }
 
@@ -97,7 +101,11 @@ impl DelegateToDefaultImpl for Arc<Unimock> {
     }
 
     fn from_delegator(delegator: Self::Delegator) -> Self {
-        Arc::new(delegator.unimock.clone())
+        // The counterpart of `to_delegator`: a solely owned delegator gives its instance back.
+        match Arc::try_unwrap(delegator) {
+            Ok(delegator) => Arc::new(delegator.unimock),
+            Err(shared) => Arc::new(shared.unimock.clone()),
+        }
     }
 }
 
